@@ -110,13 +110,24 @@ static void mk_solver(struct SQuIDS* S){
   S->CoherentRhoTerms=nondet_bool(); S->NonCoherentRhoTerms=nondet_bool(); S->OtherRhoTerms=nondet_bool(); S->GammaScalarTerms=nondet_bool(); S->OtherScalarTerms=nondet_bool();
   S->AnyNumerics=nondet_bool(); S->is_init=true; S->adaptive_step=nondet_bool();
 #endif
+#ifndef FIXED_NSTEPS
+#define FIXED_NSTEPS 0
+#endif
   S->nsteps=nondet_unsigned(); __CPROVER_assume(S->nsteps>=1 && S->nsteps<=1000000);
+  if(FIXED_NSTEPS) S->nsteps=FIXED_NSTEPS;       /* division by a constant power of two keeps the step-size comparison within the SAT back end's reach */
   S->t=nondet_double(); S->t_ini=nondet_double(); S->h=nondet_double(); S->h_min=nondet_double(); S->h_max=nondet_double(); S->abs_error=nondet_double(); S->rel_error=nondet_double();
   S->system=g_system; S->state=g_state; S->estate=g_estate; S->dstate=g_dstate; S->step=(const void*)nondet_size_t();
   S->sys.function=RHS; S->sys.jacobian=NULL; S->sys.dimension=S->nx*S->size_state; S->sys.params=S;
   for(unsigned e=0;e<NXB;e++){ g_state[e].rho=g_rho_s[e]; g_estate[e].rho=g_rho_e[e]; g_dstate[e].rho=g_rho_d[e];
     g_estate[e].scalar=g_buf_in+(e*S->size_state+S->nrhos*S->size_rho); g_dstate[e].scalar=g_buf_out+(e*S->size_state+S->nrhos*S->size_rho); g_state[e].scalar=g_system+(e*S->size_state+S->nrhos*S->size_rho); }
   S->last_dstate_ptr=(double*)nondet_size_t(); S->last_estate_ptr=(double*)nondet_size_t();
+  /* the stepper's derivative buffer holds ARBITRARY numbers before a call (GSL does not zero it): a derivative that is only accumulated into is seen.
+   * The in-step scalars are distinct non-zero powers of two: products with them stay cheap for the SAT back end (a symbolic x symbolic floating-point
+   * product compared with its recomputation is out of reach, DESIGN 7), yet a dropped, misplaced or mis-indexed factor is visible. */
+  __CPROVER_havoc_object(g_buf_out);
+#ifdef SCALAR_CONSTS
+  for(unsigned e=0;e<NXB;e++) for(unsigned s=0;s<NSB;s++) if(e<S->nx && s<S->nscalars) g_estate[e].scalar[s]=(double)(1u<<(2*e+s+1))*0.125;
+#endif
   nlog=0; sq_thrown=0;
 }
 #define EXPECT(k,KIND,EI,IDX,TT,A,B,C,W) do{ __CPROVER_assert(k<nlog && lg[k].kind==(KIND) && lg[k].ei==(EI) && lg[k].idx==(IDX) && SQ_SAME(lg[k].t,(TT)) && lg[k].a==(const void*)(A) && lg[k].b==(const void*)(B) && lg[k].c==(const void*)(C) && lg[k].w==(W), "C04: event #k of the right-hand side assembly is the documented one"); k++; }while(0)
@@ -213,7 +224,7 @@ void h_Evolve(void){
     EXPECT(k,K_DRV_ALLOC,0,0,S.h,&S.sys,S.step,0,0); __CPROVER_assert(SQ_SAME(lg[0].v,S.abs_error), "C04: driver created for this object's system with the configured stepper, initial step and tolerances");
     __CPROVER_assert(lg[1].kind==K_DRV_HMIN && SQ_SAME(lg[1].v,S.h_min) && lg[2].kind==K_DRV_HMAX && SQ_SAME(lg[2].v,S.h_max) && lg[3].kind==K_DRV_NMAX && lg[3].w==0, "C04: step bounds configured, no step-count limit");
     if(S.adaptive_step) __CPROVER_assert(lg[4].kind==K_DRV_APPLY && SQ_SAME(lg[4].t,t0+dt) && lg[4].b==&S.t && lg[4].c==g_system && SQ_SAME(lg[4].v,t0), "C04 C10: adaptive stepping integrates the stored state from t to t+dt");
-    else __CPROVER_assert(lg[4].kind==K_DRV_FIXED && lg[4].w==(int)S.nsteps && lg[4].b==&S.t && lg[4].c==g_system && SQ_SAME(lg[4].v,t0), "C04 C10: fixed stepping takes nsteps steps on the stored state, starting at the current time (the step size dt/nsteps is not compared bit-precisely)");
+    else __CPROVER_assert(lg[4].kind==K_DRV_FIXED && lg[4].w==(int)S.nsteps && lg[4].b==&S.t && lg[4].c==g_system && SQ_SAME(lg[4].v,t0) && (!FIXED_NSTEPS || SQ_SAME(lg[4].t, dt/S.nsteps)), "C04 C10: fixed stepping takes nsteps steps of size dt/nsteps on the stored state, starting at the current time (step size compared for nsteps = 4: job parameter)");
     __CPROVER_assert(lg[5].kind==K_DRV_FREE && g_driver==0 && nlog==6+(sq_thrown==0?(int)(S.nx*S.nrhos):0), "C15: the driver is released on every path; nothing else happens but re-aliasing the views");
     __CPROVER_assert((sq_thrown==1) == (g_gsl_status!=GSL_SUCCESS), "C04: a failing integration is reported as an exception");
     if(sq_thrown==0){
